@@ -3,9 +3,8 @@ CONSTANTS
   GatherMaxN = 0
   Shapes = {"scatter"}
   MaxFaults = 5
-  Batches = 3
+  Batches = 2
   Mutants = {"none"}
-  Dev = 0
 INIT Init
 NEXT Next
 INVARIANT TypeOK
